@@ -30,7 +30,7 @@ PROPS = {
                 rule="one flipped payload bit per preprocessing message (18 phases x occurrence x recipients x n), commit-before-reveal under seeded schedules, challenge predictor from wire openings vs probes; distinct by (n, phase, occurrence) / schedule"),
     "C05": dict(modules=["PolytuneModel.Thm.C05", "PolytuneModel.Thm.C05msgs"], theorems=["PolytuneModel.OnlineMsgs.C05_out_shares_recipients", "PolytuneModel.OnlineMsgs.C05_lambda_recipients", "PolytuneModel.OnlineMsgs.C05_slots_are_output_regs", "PolytuneModel.C05_non_output_silent", "PolytuneModel.C05_output_party_messages"], drive="C09", also=["C01m"], cases=dict(quick=40, thorough=400),
                 rule="recorded messages per ordered pair vs model pattern; nothing to a non-output party after input processing; distinct by (circuit, p_eval, p_out)"),
-    "C06": dict(modules=["PolytuneModel.Thm.C06C07", "PolytuneModel.Thm.C06abit"], theorems=["PolytuneModel.C06_check_blinded", "PolytuneModel.C06_cex_unblinded", "PolytuneModel.C06_mask_bijective", "PolytuneModel.C06_balanced_count"], drive="C06", only="C06", cases=dict(quick=400, thorough=4000),
+    "C06": dict(modules=["PolytuneModel.Thm.C06C07", "PolytuneModel.Thm.C06abit"], theorems=["PolytuneModel.C06_check_blinded", "PolytuneModel.C06_cex_unblinded", "PolytuneModel.C06_mask_bijective", "PolytuneModel.C06_balanced_count"], drive="C06", also=["C10l"], only="C06", cases=dict(quick=400, thorough=4000),
                 rule="repeated honest executions with taps; balance of revealed^others for input 0 and 1 (6 sigma), fresh delta and mask vector per party and run, 128-bit canary; distinct by run"),
     "C07": dict(modules=["PolytuneModel.Thm.C06C07", "PolytuneModel.Thm.C07laand"], theorems=["PolytuneModel.C07_cex_laand_e_lie", "PolytuneModel.C07_mac_view_independent", "PolytuneModel.C07_ashare_opening_independent", "PolytuneModel.C07_cex_ashare_offset", "PolytuneModel.C07_peers_can_compute"], drive="C07", also=["C07m"], only="C07", cases=dict(quick=100, thorough=1000),
                 rule="global key (tap) searched in all sent bytes (both byte orders) and as XOR of two aligned 128-bit fields; distinct by run"),
@@ -38,7 +38,7 @@ PROPS = {
                 rule="every adversary message index x 8 byte-level classes (sampled in quick), structure-aware classes on nested vectors, crash after k-th message; oracle: Ok or Err, no panic, no hang, no allocation > 64x bytes + 1 MiB; distinct by (victim role, phase, class, outcome)"),
     "C09": dict(modules=["PolytuneModel.Thm.C09", "PolytuneModel.Thm.C09tied"], theorems=["PolytuneModel.OnlineMsgs.C09_tied_lengths_public", "PolytuneModel.OnlineMsgs.walk_masked_regs", "PolytuneModel.C09_len_value_independent", "PolytuneModel.C09_len_formula", "PolytuneModel.C09_shares_msg", "PolytuneModel.C09_masked_msg", "PolytuneModel.C09_labels_msg", "PolytuneModel.C09_row_len"], drive="C09", also=["C01m"], cases=dict(quick=40, thorough=400),
                 rule="two executions per public configuration (different inputs and coins); per ordered pair the (phase,len) sequence vs the model's pattern of the public parameters; distinct by (circuit, p_eval, p_out)"),
-    "C10": dict(modules=["PolytuneModel.Thm.C10", "PolytuneModel.Thm.C10laand", "PolytuneModel.Thm.C01C10", "PolytuneModel.Thm.GenArith", "PolytuneModel.Thm.C10abit"], theorems=["PolytuneModel.C10_abit", "PolytuneModel.C10_abit_valid", "PolytuneModel.Gen_bucketSize_pos", "PolytuneModel.C10_bucket", "PolytuneModel.C10_beaver", "PolytuneModel.C10_haand_pair", "PolytuneModel.combine_two", "PolytuneModel.C10_laand_rel", "PolytuneModel.C10_laand_valid", "PolytuneModel.andOK_of_beaver"], drive="C10", also=["C10u", "C10m", "C10l", "C19m"], cases=dict(quick=8, thorough=40),
+    "C10": dict(modules=["PolytuneModel.Thm.C10", "PolytuneModel.Thm.C10laand", "PolytuneModel.Thm.C01C10", "PolytuneModel.Thm.GenArith", "PolytuneModel.Thm.C10abit"], theorems=["PolytuneModel.C10_abit", "PolytuneModel.C10_abit_valid", "PolytuneModel.Gen_bucketSize_pos", "PolytuneModel.C10_bucket", "PolytuneModel.C10_beaver", "PolytuneModel.C10_haand_pair", "PolytuneModel.combine_two", "PolytuneModel.C10_laand_rel", "PolytuneModel.C10_laand_valid", "PolytuneModel.andOK_of_beaver"], only="C10", drive="C10", also=["C10u", "C10m", "C10l", "C19m"], cases=dict(quick=8, thorough=40),
                 rule="real coin toss + fashare + beaver_aand among n parties through wrappers; MAC relation for every ordered pair and index, AND relation for every triple, identical shared coins; distinct by (n, shares, triples)"),
     "C11": dict(modules=["PolytuneModel.Thm.C11", "PolytuneModel.Thm.C11kos"], theorems=["PolytuneModel.Kos.C11_kos_check_honest_spec", "PolytuneModel.Kos.M_comm", "PolytuneModel.Kos.clmulNat_eq_M", "PolytuneModel.OT.C11_cot", "PolytuneModel.OT.column_relation", "PolytuneModel.OT.C11_draws_agree", "PolytuneModel.OT.C11_in_step"], drive="C11", cases=dict(quick=20, thorough=1),
                 rule="two back-to-back KOS sessions (both role orders) per length incl. 8k+-1, 128k+-1; all-0 / all-1 / random choices; distinct by (length, choices, order)"),
